@@ -57,6 +57,9 @@
 //! On non-Windows non-Linux platforms (e.g. mac OS), the package will not uphold the processor
 //! locality guarantees, but will otherwise function correctly as a worker pool.
 
+#[cfg(folo_verif)]
+#[doc(hidden)]
+pub mod __verif;
 mod constants;
 mod join_handle;
 mod metrics;
